@@ -3,6 +3,7 @@
   Property theorems only.  All statements are for every value of every component (no bounds).
 -/
 import DymVerif.Lemmas.Keys
+import DymVerif.Lemmas.Keys2
 import DymVerif.Gen.Keys
 import DymVerif.Lemmas.GenEqKeys
 namespace DymVerif.C19
@@ -196,5 +197,129 @@ theorem demand_order_key_injective (st st' : Status) (i i' : Bytes)
 example : sep ∉ ([114, 111, 108, 108, 95, 49, 45, 49] : Bytes) ∧ (256 : Nat) < 2 ^ 64 := by decide
 example : Bytes.WF (rollappPacketKey .pending [114] 1 .onRecv [99] 256) := by
   intro x hx; revert x; decide
+
+/-! ## Time-sorted keys (sdk.FormatTimeBytes, the sequencer notice queue)
+
+Width hypothesis, stated once: `TimeF.InRange` = year < 10000 and every other field within its
+printed width (month, day, hour, minute, second < 100, nanosecond < 10^9).  Go's calendar gives
+month 1..12, day 1..31, hour < 24, minute, second < 60, nanosecond < 10^9 (`TimeF.Calendar`), so for
+real `time.Time` values the only genuine restriction is 0 ≤ year ≤ 9999. -/
+
+/-- C19 "round-trips exactly / names one and only one object": the sortable time format is injective
+    on in-range calendar fields -/
+theorem time_format_injective (a b : TimeF) (ha : a.InRange) (hb : b.InRange)
+    (h : fmtTime a = fmtTime b) : a = b := fmtTime_inj a b ha hb h
+
+/-- C19 "composite store keys sort by ... time numerically": byte order of `sdk.FormatTimeBytes`
+    = lexicographic order of (year, month, day, hour, minute, second, nanosecond), i.e. chronological
+    order, for all in-range fields -/
+theorem time_format_order (a b : TimeF) (ha : a.InRange) (hb : b.InRange) :
+    lexLt (fmtTime a) (fmtTime b) = lexLt a.fields b.fields := lexLt_fmtTime a b ha hb
+
+/-- real `time.Time` fields with year ≤ 9999 are in range -/
+theorem time_calendar_in_range (t : TimeF) (h : t.Calendar) : t.InRange := h.inRange
+
+/-- outside the width hypothesis the order breaks: 10000-01-01 sorts *before* 9999-12-31 -/
+theorem time_format_order_counterexample :
+    let a : TimeF := ⟨10000, 1, 1, 0, 0, 0, 0⟩
+    let b : TimeF := ⟨9999, 12, 31, 23, 59, 59, 999999999⟩
+    lexLt (fmtTime a) (fmtTime b) = true ∧ lexLt a.fields b.fields = false := by decide
+
+/-- the notice-queue time keys sort chronologically -/
+theorem notice_queue_time_key_order (a b : TimeF) (ha : a.InRange) (hb : b.InRange) :
+    lexLt (noticeQueueByTimeKey a) (noticeQueueByTimeKey b) = lexLt a.fields b.fields := by
+  simp only [noticeQueueByTimeKey, encodeTimeToKey, lexLt_append_left]
+  exact lexLt_fmtTime a b ha hb
+
+/-- full notice-queue keys (time, sequencer address): an entry with an earlier time sorts before an
+    entry with a later time, whatever the two addresses are -/
+theorem notice_queue_key_order (a b : TimeF) (x y : Bytes) (ha : a.InRange) (hb : b.InRange)
+    (hlt : lexLt a.fields b.fields = true) :
+    lexLt (noticeQueueBySeqTimeKey x a) (noticeQueueBySeqTimeKey y b) = true := by
+  simp only [noticeQueueBySeqTimeKey, noticeQueueByTimeKey, encodeTimeToKey, List.append_assoc,
+    lexLt_append_left]
+  exact lexLt_append_of_lt _ _ _ _ (by rw [fmtTime_length a ha, fmtTime_length b hb])
+    (by rw [lexLt_fmtTime a b ha hb]; exact hlt)
+
+/-- the (time, sequencer address) key names exactly one (time, address) pair -/
+theorem notice_queue_key_injective (a b : TimeF) (x y : Bytes) (ha : a.InRange) (hb : b.InRange)
+    (e : noticeQueueBySeqTimeKey x a = noticeQueueBySeqTimeKey y b) : a = b ∧ x = y := by
+  simp only [noticeQueueBySeqTimeKey, noticeQueueByTimeKey, encodeTimeToKey, noticePeriodQueueKey,
+    List.append_assoc, List.cons_append, List.nil_append, List.cons.injEq, true_and] at e
+  have e1 := List.append_inj e (by rw [fmtTime_length a ha, fmtTime_length b hb])
+  exact ⟨fmtTime_inj a b ha hb e1.1, (List.cons.inj e1.2).2⟩
+
+/-- **the notice-queue scan** `Iterator(0x42, PrefixEndBytes(NoticeQueueByTimeKey(T)))` (how
+    `NoticeElapsedProposers` reads the queue) returns an entry (t, addr) exactly when t ≤ T -/
+theorem notice_queue_scan_exact (T t : TimeF) (addr : Bytes) (hT : T.InRange) (ht : t.InRange) :
+    inRangeO (noticeQueueRange T).1 (noticeQueueRange T).2 (noticeQueueBySeqTimeKey addr t)
+      = !(lexLt T.fields t.fields) := by
+  obtain ⟨q, hq, hql⟩ := fmtTime_snoc T hT
+  have hd : 48 + T.ns % 10 ≠ 255 := by omega
+  have hend : prefixEnd (noticeQueueByTimeKey T) = some ((0x42 :: q) ++ [48 + T.ns % 10 + 1]) := by
+    simp only [noticeQueueByTimeKey, encodeTimeToKey, noticePeriodQueueKey, hq]
+    exact prefixEnd_snoc (0x42 :: q) _ hd
+  have hnil : ∀ s : Bytes, lexLt s [] = false := by intro s; cases s <;> rfl
+  have hlo : lexLe noticePeriodQueueKey (noticeQueueBySeqTimeKey addr t) = true := by
+    simp [lexLe, noticeQueueBySeqTimeKey, noticeQueueByTimeKey, encodeTimeToKey, noticePeriodQueueKey,
+      lexLt, hnil]
+  simp only [noticeQueueRange, inRangeO, hend, hlo, Bool.true_and]
+  have hk : noticeQueueBySeqTimeKey addr t = (0x42 :: fmtTime t) ++ ([sep] ++ addr) := by
+    simp [noticeQueueBySeqTimeKey, noticeQueueByTimeKey, encodeTimeToKey, noticePeriodQueueKey]
+  rw [hk, lexLt_succ_last (0x42 :: q) _ (0x42 :: fmtTime t) _ (by simp [fmtTime_length t ht, hql])]
+  have : (0x42 :: q) ++ [48 + T.ns % 10] = 0x42 :: fmtTime T := by rw [hq]; rfl
+  rw [this]
+  have : lexLt (0x42 :: fmtTime T) (0x42 :: fmtTime t) = lexLt (fmtTime T) (fmtTime t) := by simp [lexLt]
+  rw [this, lexLt_fmtTime T t hT ht]
+
+/-- the notice-queue scan never returns a key of another family of the sequencer store: everything in
+    its range starts with the queue prefix 0x42 -/
+theorem notice_queue_scan_only_queue (T : TimeF) (K : Bytes) (hT : T.InRange)
+    (h : inRangeO (noticeQueueRange T).1 (noticeQueueRange T).2 K = true) :
+    isPrefix noticePeriodQueueKey K = true := by
+  obtain ⟨q, hq, _⟩ := fmtTime_snoc T hT
+  have hd : 48 + T.ns % 10 ≠ 255 := by omega
+  have hend : prefixEnd (noticeQueueByTimeKey T) = some ([0x42] ++ (q ++ [48 + T.ns % 10 + 1])) := by
+    simp only [noticeQueueByTimeKey, encodeTimeToKey, noticePeriodQueueKey, hq]
+    exact prefixEnd_snoc (0x42 :: q) _ hd
+  cases hx : isPrefix noticePeriodQueueKey K with
+  | true => rfl
+  | false =>
+    have := not_prefix_not_inRange noticePeriodQueueKey [] (q ++ [48 + T.ns % 10 + 1]) K hx
+    simp only [noticeQueueRange, inRangeO, hend] at h
+    simp only [inRange, List.append_nil, noticePeriodQueueKey] at this h
+    rw [this] at h; exact absurd h (by decide)
+
+/-- sequencer-by-address, proposer and successor keys: each injective in its component … -/
+theorem sequencer_key_injective (a b : Bytes) (e : sequencerKey a = sequencerKey b) : a = b := by
+  simpa [sequencerKey] using e
+theorem proposer_key_injective (a b : Bytes) (e : proposerByRollappKey a = proposerByRollappKey b) : a = b := by
+  simpa [proposerByRollappKey] using e
+theorem successor_key_injective (a b : Bytes) (e : successorByRollappKey a = successorByRollappKey b) : a = b := by
+  simpa [successorByRollappKey] using e
+
+/-- … and the families (sequencer 0x00, by-rollapp 0x01, proposer 0x02, successor 0x03, notice
+    queue 0x42) are pairwise disjoint for all component values -/
+theorem sequencer_families_disjoint (a b c d e : Bytes) (st : OpStatus) (t : TimeF) :
+    sequencerKey a ≠ proposerByRollappKey b ∧ sequencerKey a ≠ successorByRollappKey c ∧
+    proposerByRollappKey b ≠ successorByRollappKey c ∧
+    sequencerKey a ≠ sequencerByRollappByStatusKey d e st ∧
+    proposerByRollappKey b ≠ sequencerByRollappByStatusKey d e st ∧
+    successorByRollappKey c ≠ sequencerByRollappByStatusKey d e st ∧
+    noticeQueueBySeqTimeKey a t ≠ sequencerKey b ∧ noticeQueueBySeqTimeKey a t ≠ proposerByRollappKey b ∧
+    noticeQueueBySeqTimeKey a t ≠ successorByRollappKey b ∧
+    noticeQueueBySeqTimeKey a t ≠ sequencerByRollappByStatusKey d e st := by
+  simp [sequencerKey, proposerByRollappKey, successorByRollappKey, sequencerByRollappByStatusKey,
+    sequencersByRollappByStatusKey, sequencersByRollappKey, noticeQueueBySeqTimeKey,
+    noticeQueueByTimeKey, encodeTimeToKey, noticePeriodQueueKey]
+
+-- non-vacuity (time keys): realistic in-range times, an entry inside and one outside a scan
+example : (⟨2024, 2, 29, 23, 59, 59, 999999999⟩ : TimeF).Calendar := by unfold TimeF.Calendar; decide
+example : (⟨0, 1, 1, 0, 0, 0, 0⟩ : TimeF).InRange ∧ (⟨9999, 12, 31, 23, 59, 59, 999999999⟩ : TimeF).InRange := by
+  unfold TimeF.InRange; decide
+example : inRangeO (noticeQueueRange ⟨2024, 3, 1, 0, 0, 0, 0⟩).1 (noticeQueueRange ⟨2024, 3, 1, 0, 0, 0, 0⟩).2
+    (noticeQueueBySeqTimeKey [100] ⟨2024, 3, 1, 0, 0, 0, 0⟩) = true ∧
+  inRangeO (noticeQueueRange ⟨2024, 3, 1, 0, 0, 0, 0⟩).1 (noticeQueueRange ⟨2024, 3, 1, 0, 0, 0, 0⟩).2
+    (noticeQueueBySeqTimeKey [100] ⟨2024, 3, 1, 0, 0, 0, 1⟩) = false := by decide
 
 end DymVerif.C19
